@@ -75,7 +75,11 @@ impl Prop for C07 {
             attribute_prefix: Some(random_option_string(&mut rng)),
             text_identifier: Some(random_option_string(&mut rng)),
         });
-        let replicas = vec![Replica { role: "client".into(), entropy: rng.u128(), steps, warmup: vec![] }];
+        let mut replicas = vec![Replica { role: "client".into(), entropy: rng.u128(), steps, warmup: vec![] }];
+        if rng.pct(20) {
+            super::add_warmup(&mut rng, &mut replicas[0], &[]);
+        }
+        super::decorate_role(&mut rng, &mut replicas[0]);
         Scenario::Session(Session { docs: vec![], alts: vec![], replicas, opts })
     }
     fn exec(&self, sc: &Scenario, ctr: &mut Ctr) -> Result<Exec, String> {
@@ -93,6 +97,7 @@ impl Prop for C07 {
         }
         let want = Want { renders: true, render_twice: false, obs: false, obs_sorted: false };
         let outs = run_session(s, &want)?;
+        super::count_decorations(s, ctr);
         let trace = trace_hash(&outs);
         let mut violation = None;
         let mut sim_steps = 0;
